@@ -767,6 +767,11 @@ func (it *Iterator) skipRetreatToMatch() {
 			it.setEof()
 			return
 		}
+		if prefix == it.skipGroup && prefix >= it.rng.End {
+			// handles the initial skipGroup="" colliding with an out-of-range empty prefix
+			it.skipSeekPrevGroup(prefix)
+			continue
+		}
 		if prefix != it.skipGroup {
 			it.skipGroup = prefix
 			if prefix >= it.rng.End {
